@@ -20,7 +20,7 @@ from collections.abc import Iterator
 from copy import copy
 from itertools import zip_longest
 from typing import cast, Any, Optional, Union, NoReturn
-from urllib.parse import urlsplit, unquote
+from urllib.parse import urlsplit, unquote, unwrap
 from urllib.request import urlopen
 from xml.sax.saxutils import escape
 from http.client import HTTPException
@@ -1261,7 +1261,7 @@ ENVIRON_PATH_PATTERN = re.compile(r'/proc/(\d+|self|thread-self)(/task/\d+)?/env
 def is_environment_resource(uri: str) -> bool:
     """Returns `True` if the URI refers to a file that exposes the environment of a process."""
     try:
-        parts = urlsplit(uri)
+        parts = urlsplit(unwrap(uri))  # urlopen() accepts '<URL:...>' and 'URL:...' forms too
         if parts.scheme not in ('', 'file'):
             return False
         path = os.path.realpath(unquote(parts.path))
